@@ -24,7 +24,7 @@ def chunks(lst, n):
         yield lst[i:i + n]
 
 
-def bounded_jobs(exe, itypes, caps, percents, presets, maxlen, per_proc=200, deadline=600):
+def bounded_jobs(exe, itypes, caps, percents, presets, maxlen, per_proc=200, deadline=60, budget=240):
     """caps: a power of two, or a pair (requested capacity, the power of two it must round up to)"""
     jobs = []
     for it in itypes:
@@ -40,11 +40,12 @@ def bounded_jobs(exe, itypes, caps, percents, presets, maxlen, per_proc=200, dea
                 for preset in presets:
                     for ch in chunks(ss, per_proc):
                         jobs.append((exe, ["--mode", "bounded", "--itype", it, "--cap", cap, "--rawcap", rawcap, "--percent", pct, "--preset", preset,
-                                           "--ops-batch", ";".join(ch), "--deadline", deadline], deadline * len(ch) + 60))
+                                           "--ops-batch", ";".join(ch), "--deadline", deadline, "--batch-budget", budget],
+                                     (budget + deadline + 60) if budget else (deadline * len(ch) + 60)))
     return jobs
 
 
-def unbounded_jobs(exe, pairs, maxlen, per_proc=40, deadline=600, with_shrink=True):
+def unbounded_jobs(exe, pairs, maxlen, per_proc=40, deadline=60, with_shrink=True, budget=240):
     jobs = []
     for initial, mx in pairs:
         sizes = sorted(set([1, initial // 2, initial, initial + 1, 2 * initial, mx, mx + 1]))
@@ -58,7 +59,8 @@ def unbounded_jobs(exe, pairs, maxlen, per_proc=40, deadline=600, with_shrink=Tr
         ss += ["b%d,b%d,w%d" % (i2, i2, 2 * initial), "b1,b%d,w%d,b1,s0,w1" % (i2, initial + 1), "b%d,w%d,b1,w%d" % (i2, initial, initial + 1)]
         for ch in chunks(ss, per_proc):
             jobs.append((exe, ["--mode", "unbounded", "--initial", initial, "--max", mx, "--ops-batch", ";".join(ch),
-                               "--deadline", deadline], deadline * len(ch) + 60))
+                               "--deadline", deadline, "--batch-budget", budget],
+                         (budget + deadline + 60) if budget else (deadline * len(ch) + 60)))
     return jobs
 
 
